@@ -41,6 +41,8 @@ type Obligation struct {
 }
 
 type FnVerifier struct {
+	detached      map[ssa.Value]bool // results of slice-to-array-pointer conversions
+	loopOrdinals  map[int]bool // loop ordinals met in the function and the new helpers executed as part of it
 	eng           *Engine
 	smt           *SMT
 	fn            *ssa.Function
@@ -89,6 +91,15 @@ type Frame struct {
 	parent   *Frame
 	curBlock *ssa.BasicBlock
 	entry    *State // pre-state of this activation (inlined callees: old() is relative to the call)
+	// transparent: the function under contract itself, or a helper extracted from it since the
+	// baseline (no contract of its own): its call sites, ghost counters and loops are the caller's
+	transparent bool
+	// owner: the frame whose contract governs this one - itself for the function under contract
+	// and for inlined callees that have a contract, the caller's owner for an extracted helper
+	owner    *Frame
+	loopBase    int               // ordinal of this frame's first loop (transparent helpers continue the caller's numbering)
+	sendVal     *specVal          // value of the send being asserted about ("v" in `assert … at send`)
+	callBase    map[*ssa.Call]int // first ordinal reserved for the loops of a new helper called here
 }
 
 type exitInfo struct {
@@ -252,7 +263,9 @@ func (fr *Frame) analyzeLoops() {
 		}
 	}
 	// loops are numbered in source order (smallest source position inside the loop; an enclosing
-	// loop before the loops it contains), whatever their form (for / range)
+	// loop before the loops it contains), whatever their form (for / range). A call to a helper
+	// that was extracted since the baseline reserves, at its position, as many ordinals as the
+	// helper has loops: a loop moved into a helper keeps its number.
 	srcPos := map[*ssa.BasicBlock]int{}
 	for _, h := range headers {
 		srcPos[h] = fr.loopSrcPos(h, backSrc[h])
@@ -266,12 +279,55 @@ func (fr *Frame) analyzeLoops() {
 		}
 		return headers[i].Index < headers[j].Index
 	})
+	type vcall struct {
+		c   *ssa.Call
+		pos int
+		n   int
+	}
+	var vcalls []vcall
+	if fr.owner != nil && fr.depth < 4 {
+		for _, b := range fr.fn.Blocks {
+			for _, in := range b.Instrs {
+				if c, ok := in.(*ssa.Call); ok && !c.Call.IsInvoke() {
+					if f, ok := c.Call.Value.(*ssa.Function); ok && fr.v.eng.isNewHelper(f) && fr.v.eng.extModel(f) == nil {
+						if n := fr.v.eng.virtualLoopCount(f, fr.depth+1); n > 0 {
+							vcalls = append(vcalls, vcall{c, int(c.Pos()), n})
+						}
+					}
+				}
+			}
+		}
+		sort.SliceStable(vcalls, func(i, j int) bool { return vcalls[i].pos < vcalls[j].pos })
+	}
+	fr.callBase = map[*ssa.Call]int{}
+	ordinalOf := map[*ssa.BasicBlock]int{}
+	{
+		next, ci := fr.loopBase, 0
+		for _, h := range headers {
+			for ci < len(vcalls) && vcalls[ci].pos < srcPos[h] {
+				fr.callBase[vcalls[ci].c] = next
+				next += vcalls[ci].n
+				ci++
+			}
+			ordinalOf[h] = next
+			next++
+		}
+		for ; ci < len(vcalls); ci++ {
+			fr.callBase[vcalls[ci].c] = next
+			next += vcalls[ci].n
+		}
+	}
 	if os.Getenv("GOVC_DEBUG_LOOPS") != "" && fr.top {
-		for i, h := range headers {
+		for _, h := range headers {
+			i := ordinalOf[h]
 			fmt.Fprintf(os.Stderr, "LOOPS %s old=%d header=%s(%d) hpos=%d srcpos=%d\n", fr.fn.String(), i, h.Comment, h.Index, fr.headerPos(h), fr.loopSrcPos(h, backSrc[h]))
 		}
 	}
-	for i, h := range headers {
+	for _, h := range headers {
+		i := ordinalOf[h]
+		if fr.transparent {
+			fr.v.loopOrdinals[i] = true
+		}
 		li := &loopInfo{header: h, ordinal: i, inLoop: map[*ssa.BasicBlock]bool{h: true}, names: map[string]ssa.Value{}}
 		// natural loop: blocks that reach a back-edge source without passing through h
 		var stack []*ssa.BasicBlock
@@ -296,10 +352,14 @@ func (fr *Frame) analyzeLoops() {
 				li.blocks = append(li.blocks, b)
 			}
 		}
-		if fr.fc != nil {
-			li.spec = fr.fc.Loops[i]
+		lfc := fr.fc
+		if fr.owner != nil {
+			lfc = fr.owner.fc
+		}
+		if lfc != nil {
+			li.spec = lfc.Loops[i]
 			if li.spec == nil {
-				li.spec = fr.fc.Loops[-1]
+				li.spec = lfc.Loops[-1]
 			}
 		}
 		li.mods = fr.v.eng.blocksMods(li.blocks, li.inLoop)
@@ -459,7 +519,7 @@ func (fr *Frame) run(st0 *State, args []Val) {
 // the loop in the same branch included), in the state at the end of the source block. sinceloop() refers to the state on first arrival at the header.
 func (fr *Frame) afterLoopAsserts(from, to *ssa.BasicBlock, st *State, cond string) {
 	v := fr.v
-	if v.fc == nil || !fr.top || len(v.fc.Asserts) == 0 {
+	if v.fc == nil || !fr.transparent || len(v.fc.Asserts) == 0 {
 		return
 	}
 	for _, as := range v.fc.Asserts {
@@ -972,9 +1032,22 @@ func (fr *Frame) execInstr(st *State, in ssa.Instruction) {
 			fr.safetyObl(st, "nil", "(not (= "+addr.T+" 0))", "nil dereference: "+x.String(), x.Pos())
 		}
 		fr.checkGuarded(st, addr, x.Pos(), "write")
+		for base := x.Addr; base != nil; {
+			if v.detached[base] {
+				v.unsupported("store through a converted array pointer")
+			}
+			switch b := base.(type) {
+			case *ssa.FieldAddr:
+				base = b.X
+			case *ssa.IndexAddr:
+				base = b.X
+			default:
+				base = nil
+			}
+		}
 		fr.checkFrozen(st, x)
 		v.storePtr(st, addr, deref(x.Addr.Type()), val)
-		fr.siteAsserts(st, "store", x.Addr, nil, x.Pos())
+		fr.siteAsserts(st, "store", x.Addr, []Val{{T: val}}, x.Pos())
 	case *ssa.Field:
 		sv := fr.term(st, x.X)
 		_, sT := namedStruct(x.X.Type())
@@ -1018,6 +1091,19 @@ func (fr *Frame) execInstr(st *State, in ssa.Instruction) {
 		v.smt.note("closure value " + x.Fn.Name() + " treated as opaque")
 	case *ssa.MakeInterface:
 		fr.defVal(x, v.makeIface(st, fr.term(st, x.X), x.X.Type()))
+	case *ssa.SliceToArrayPointer:
+		// (*[N]T)(s): panics when len(s) < N. The result is modelled as a pointer to a detached
+		// copy with unconstrained contents (reads say nothing; a store through it is out of subset).
+		sl := fr.term(st, x.X)
+		at, _ := deref(x.Type()).Underlying().(*types.Array)
+		if at == nil {
+			v.unsupported("slice to array pointer %s", x.Type())
+		}
+		fr.safetyObl(st, "index", fmt.Sprintf("(>= (s.len %s) %d)", sl, at.Len()), "slice long enough for the array conversion: "+x.String(), x.Pos())
+		r := v.newRef(st, "arrconv")
+		fr.vals[x] = Val{T: r}
+		v.detached[x] = true
+		v.smt.note("slice-to-array-pointer conversion: contents of the converted array unconstrained")
 	case *ssa.ChangeType:
 		fr.vals[x] = Val{T: fr.term(st, x.X)}
 	case *ssa.ChangeInterface:
